@@ -90,6 +90,8 @@ def sites(toks, lo, hi):
             res.append(("%s flipped" % t.text, [(i, "false" if t.text == "true" else "true")]))
         elif t.kind == PUNCT:
             two = t.text + nxt.text if adj_next and nxt.kind == PUNCT else ""
+            if t.text == "!" and two != "!=" and nxt is not None and (nxt.kind == IDENT or nxt.text == "(") and OPS == "all":
+                res.append(("drop !", [(i, "")]))
             if two in ("<=", ">="):
                 res.append(("%s->%s" % (two, t.text), [(s[n + 1], "")]))
             elif two in ("==", "!="):
@@ -129,7 +131,10 @@ def sites(toks, lo, hi):
         if stmt_start is None:
             stmt_start = i
         if t.kind == PUNCT and t.text == ";":
-            if toks[stmt_start].text == "self" and stmt_start != i:
+            nx = next((k for k in range(stmt_start + 1, i) if toks[k].sig()), None)
+            is_call_stmt = toks[stmt_start].kind == IDENT and toks[stmt_start].text not in ("let", "return", "if", "for", "while", "match", "loop", "break", "continue") \
+                and nx is not None and toks[nx].text == "."
+            if (toks[stmt_start].text == "self" or is_call_stmt) and stmt_start != i:
                 txt = rustlex.untokenize(toks[stmt_start:i + 1])
                 res.append(("delete `%s`" % " ".join(txt.split())[:50], [(k, "") for k in range(stmt_start, i + 1)]))
             stmt_start = None
